@@ -45,9 +45,10 @@ COMPONENTS = [
 
 ND_FUNCS = {"nd_int", "nd_uint", "nd_uchar", "nd_ulong", "nd_long", "nd_bool", "nd_float"}
 
+# --pointer-overflow-check is opt-in per unit ("flags"): it treats NULL + 0 as a fatal
+# failure, which the code does on every empty slice (excluded class, DESIGN sec. 9 item 6).
 DEFAULT_CBMC_FLAGS = [
-    "--bounds-check", "--pointer-check", "--div-by-zero-check",
-    "--pointer-overflow-check", "--conversion-check",
+    "--bounds-check", "--pointer-check", "--div-by-zero-check", "--conversion-check",
 ]
 
 
@@ -295,7 +296,7 @@ def build_unit(unit, workdir, want_trace_for=None):
     cur = a
     if unit["preunwind"]:
         b = os.path.join(workdir, "pre.gb")
-        cmd = ["goto-instrument", "--unwindset", ",".join(unit["preunwind"]), cur, b]
+        cmd = ["goto-instrument", "--unwindset", ",".join(unit["preunwind"]), "--unwinding-assertions", cur, b]
         r = run(cmd, 300)
         info["steps"].append(" ".join(cmd))
         if r["rc"] != 0:
